@@ -404,6 +404,24 @@ def request_paths(A, fl, cache={}):
     return cache[key]
 
 
+def all_equal(ga, items):
+    """Do the equality atoms that hold on the path (a == b, True) put all items into one
+    equivalence class?"""
+    parent = {}
+
+    def find(x):
+        parent.setdefault(x, x)
+        while parent[x] != x:
+            parent[x] = parent[parent[x]]
+            x = parent[x]
+        return x
+    for a, pl in ga:
+        if pl and a.count(' == ') == 1:
+            l, r = a.split(' == ')
+            parent[find(l)] = find(r)
+    return len({find(i) for i in items}) == 1
+
+
 def _origin_ok(ga):
     return ('self.cors_allowed_origins == []', True) in ga or ('origin', False) in ga or \
         ('allowed_origins is None', True) in ga or ('origin in allowed_origins', True) in ga
@@ -503,18 +521,20 @@ def admission_rules(A, fl, rule, parts=('defs', 'sinks', 'inert', 'origin', 'res
                 need += [("method == 'GET'", True), ('sid is None', True),
                          ("query.get('EIO') == ['4']", True)]
                 alts = [[("transport == 'polling'", True)],
-                        [("transport == upgrade_header == 'websocket'", True)]]
+                        ('equal', ['transport', 'upgrade_header', "'websocket'"])]
             elif sink == 'get':
                 need += [("method == 'GET'", True), ('sid is None', False),
                          ('sid in self.sockets', True)]
-                alts = [[('self.transport(sid) == transport', True)],
-                        [('transport == upgrade_header', True)]]
+                alts = [('equal', ['self.transport(sid)', 'transport']),
+                        ('equal', ['transport', 'upgrade_header'])]
             elif sink == 'post':
                 need += [("method == 'POST'", True), ('sid is None', False),
                          ('sid in self.sockets', True)]
             if 'sinks' in parts:
                 miss = [g for g in need if g not in ga_before]
-                okalt = not alts or any(all(g in ga_before for g in alt) for alt in alts)
+                okalt = not alts or any(
+                    all_equal(ga_before, alt[1]) if isinstance(alt, tuple)
+                    else all(g in ga_before for g in alt) for alt in alts)
                 A.check(not miss and okalt and _origin_ok(ga_before), rule + '.admission',
                         '%s: a request is %s only after every admission test passed (%s)'
                         % (name, {'connect': 'opened', 'get': 'served as poll/upgrade',
@@ -584,6 +604,35 @@ def admission_rules(A, fl, rule, parts=('defs', 'sinks', 'inert', 'origin', 'res
                                          'handle_request raise KeyError: no response at all')
             continue
         counts['refused'] += 1
+        if 'sinks' in parts and final is not None:
+            # a refusal must be justified: the guard set that leads to it is the exact negation
+            # of an admission test (no over-refusal)
+            just = None
+            neq = None
+            if final == "self._bad_request('Invalid transport')" and \
+                    ('sid in self.sockets', True) in ga:
+                just = []
+                neq = [['self.transport(sid)', 'transport'], ['transport', 'upgrade_header']]
+            elif final == "self._bad_request('Invalid websocket upgrade')":
+                just = [("transport == 'polling'", False)]
+                neq = [['transport', 'upgrade_header', "'websocket'"]]
+            elif final == "self._bad_request('Invalid JSONP index number')":
+                just = [("'j' in query", True)]
+            if just is not None:
+                miss = [g for g in just if g not in ga]
+                for items in (neq or []):
+                    # the equalities must be refuted on the path, not merely untested
+                    rel = [(a, pl) for a, pl in ga if a.count(' == ') == 1 and
+                           all(x in items for x in a.split(' == '))]
+                    if all_equal(ga, items) or not any(not pl for a, pl in rel):
+                        miss.append(('=='.join(items), False))
+                A.check(not miss, rule + '.refusal-justified',
+                        '%s: %s is answered only when the corresponding admission test really '
+                        'failed' % (name, final[len('self._bad_request('):-1]), site,
+                        key='%s-over-refusal:%s' % (name, final), detail=['missing: %s' % miss] +
+                        v.describe(50),
+                        behaviour='well-addressed requests (e.g. every ordinary poll) are '
+                                  'refused with 400')
         if 'inert' in parts:
             isref = (final is not None and final.startswith('self._bad_request(')) or \
                 (final is None and early)
@@ -602,8 +651,13 @@ def admission_rules(A, fl, rule, parts=('defs', 'sinks', 'inert', 'origin', 'res
                     + v.describe(40),
                     behaviour='a refused request creates, closes or drains a session')
     if 'sinks' in parts:
-        for k in ('connect', 'get', 'post', 'options', '405', 'refused'):
+        for k in ('connect', 'get', 'post', 'refused'):
             A.floor(rule, '%s handle_request %s paths' % (name, k), counts[k], 1)
+        A.require(rule + '.methods', '%s: methods other than GET/POST/OPTIONS are answered 405'
+                  % name, counts['405'], 1, site, key='%s-no-405' % name,
+                  behaviour='an unsupported method is answered with something else than 405')
+        A.require(rule + '.methods', '%s: OPTIONS is answered 200' % name, counts['options'], 1,
+                  site, key='%s-no-options' % name)
     if 'origin' in parts:
         A.floor(rule, '%s origin-refused paths' % name, counts['origin-refused'], 1)
     A.sample({'rule': rule, 'flavour': name, 'paths': len(ps), 'by_outcome': counts})
@@ -823,6 +877,16 @@ def compression_rules(A, fl, rule):
     name = fl['name']
     blocks = [st for st in fi.node.body if isinstance(st, ast.If) and
               'self.http_compression' in ast.unparse(st.test)]
+    if not blocks:
+        # extracted into a helper of the server class (or its base)
+        for k in A.model.mro(srv):
+            for m_ in k.methods.values():
+                if m_.qualname in A.anchors() and m_.name != 'handle_request':
+                    continue
+                for st in m_.node.body:
+                    if isinstance(st, ast.If) and 'self.http_compression' in ast.unparse(st.test):
+                        blocks.append(st)
+                        fi = m_
     if len(blocks) != 1:
         raise AnalysisError('%s: compression block of %s not found' % (rule, fi.qualname))
     sl = _slice_func(A, fi, [blocks[0], ast.Return(ast.Name('r', ast.Load()))], 'compress',
@@ -1094,7 +1158,11 @@ def api_rules(A, fl, rule):
                     '%s send_packet(sid, pkt) enqueues pkt on the session looked up from its own '
                     'sid, once' % name, A.site(fi), key='%s-send-own' % name, detail=v.describe(),
                     behaviour='a message is delivered to a session other than the addressed one')
-    A.floor(rule, '%s send_packet paths' % name, min(n_ok, n_dead), 1)
+    A.floor(rule, '%s send_packet delivering paths' % name, n_ok, 1)
+    A.require(rule + '.dead-id-noop', '%s send to an unknown / disconnected sid is a silent no-op '
+              '(the failed lookup is handled)' % name, n_dead, 1, A.site(fi),
+              key='%s-send-dead-unhandled' % name,
+              behaviour='send() to a dead session id raises KeyError')
     # session accessors
     fi = A.func(fl['server'] + '.get_session')
     for p in [p for p in A.paths(A.enum(), fi, srv) if p.outcome == 'return']:
@@ -1116,9 +1184,12 @@ def api_rules(A, fl, rule):
             key='%s-save-session-raise' % name)
     fi = A.func('base_server.BaseServer.transport')
     for p in [p for p in A.paths(A.enum(), fi, srv) if p.outcome == 'return']:
-        A.check(txt(p.value) == "'websocket' if %s.upgraded else 'polling'" % S,
-                rule + '.transport', '%s transport(sid) reports websocket iff the session is '
-                'upgraded' % name, A.site(fi), key='%s-transport' % name, detail=txt(p.value))
+        gat = set(PV(p).guard_atoms())
+        okt = txt(p.value) == "'websocket' if %s.upgraded else 'polling'" % S or \
+            (txt(p.value) == "'websocket'" and (S + '.upgraded', True) in gat) or \
+            (txt(p.value) == "'polling'" and (S + '.upgraded', False) in gat)
+        A.check(okt, rule + '.transport', '%s transport(sid) reports websocket iff the session '
+                'is upgraded' % name, A.site(fi), key='%s-transport' % name, detail=txt(p.value))
     A.check('KeyError' in A.resolver.raises_of(fi, srv), rule + '.dead-id-raises',
             '%s transport raises KeyError for a dead id' % name, A.site(fi),
             key='%s-transport-raise' % name)
@@ -1355,6 +1426,21 @@ def generate_id_rules(A, rule):
             match("base64.urlsafe_b64encode(_rand + self.sequence_number.to_bytes(_k, 'big'))"
                   ".decode('utf-8')", rv)
         if m1 is None:
+            mg = match("base64.b64encode(_rand + self.sequence_number.to_bytes(_k, 'big'))"
+                       ".decode('utf-8').replace(_a, _b).replace(_c, _d)", rv)
+            if mg is not None:
+                try:
+                    mp = {ast.literal_eval(mg['a']): ast.literal_eval(mg['b']),
+                          ast.literal_eval(mg['c']): ast.literal_eval(mg['d'])}
+                except Exception:
+                    mp = None
+                A.check(mp == {'/': '_', '+': '-'}, rule + '.alphabet',
+                        "the two characters of the standard base64 alphabet outside [A-Za-z0-9_-] "
+                        "are replaced injectively: '/' -> '_' and '+' -> '-'", site,
+                        key='id-replacements', detail=str(mp),
+                        behaviour="ids contain '+' or '/' (not URL-safe) or two different ids "
+                                  'collapse to the same text')
+                return
             A.undecided(rule + '.template', 'generate_id matches encode(random(n) || counter(k '
                         'bytes, big-endian))', site, txt(rv))
             return
@@ -1407,7 +1493,11 @@ def generate_id_rules(A, rule):
                 if sh is not None:
                     mask = ('and', (1 << ast.literal_eval(sh['b'])) - 1)
             if mask is None:
-                A.undecided(rule + '.counter', 'counter update recognised', site, txt(e))
+                A.violated(rule + '.counter', 'the counter is advanced as (counter + 1) & (2^(8k) '
+                           '- 1) on every issue', A.site(fi, v.node(w[0][0])),
+                           key='id-counter-update', detail=txt(e),
+                           behaviour='consecutive ids share the counter value: with a repeating '
+                                     'random source two ids of a window are equal')
             else:
                 period = (mask[1] + 1) if mask[0] == 'and' and (mask[1] & (mask[1] + 1)) == 0 \
                     else (mask[1] if mask[0] == 'mod' else None)
@@ -1707,8 +1797,8 @@ def upgrade_configured_rule(A, fl, rule):
         if not c:
             continue
         gb = set(atom(e.expr, e.pol) for e in v.ev[:c[0][0]] if e.kind == 'guard')
-        if ('transport == upgrade_header', True) in gb and \
-                ('self.transport(sid) == transport', False) in gb:
+        if all_equal(gb, ['transport', 'upgrade_header']) and \
+                not all_equal(gb, ['self.transport(sid)', 'transport']):
             continue    # the header names the query transport, which was tested
         if not (('upgrade_header in self.transports', True) in gb or
                 ('upgrade_header is None', True) in gb):
